@@ -63,6 +63,8 @@ def cases(draw, tier):
     bits = draw(st.lists(st.integers(0, 7), min_size=6, max_size=20))
     keys = draw(st.lists(st.sampled_from(KEY_WORDS), min_size=12, max_size=12, unique=True))
     case = {"kind": kind, "ir": ir, "bits": bits, "keys": keys, "cfg": {"literal_enums": draw(st.booleans())}}
+    if kind == "components" and draw(st.integers(0, 5)) == 0:
+        case["content_param"] = True     # a parameter described with 'content' instead of 'schema' (valid OpenAPI), inline and by reference
     if kind == "schemas":
         flat = [n for n, sc in ir["schemas"] if sc["k"] == "object" and not sc.get("allOf")]
         if flat and draw(st.integers(0, 2)) == 0:
@@ -215,6 +217,14 @@ def _api_files(snap):
 def _run_components(case, ctx):
     ir = case["ir"]
     doc = docs.render(ir)
+    zz = None
+    if case.get("content_param") and doc.get("paths"):
+        item0 = next(iter(doc["paths"].values()))
+        op0 = next((item0[m] for m in docs.METHODS if m in item0), None)
+        if op0 is not None:
+            zz = {"name": "zzFilter", "in": "query", "content": {"application/json": {"schema": {"type": "object", "properties": {"a": {"type": "string"}}}}}}
+            op0.setdefault("parameters", []).append(zz)
+            ctx.label("content_style_parameter")
     a = sut.generate(doc, cfg=case.get("cfg") or {}, pkg_name="pkg")
     ctx.evals()
     try:
@@ -225,6 +235,14 @@ def _run_components(case, ctx):
     finally:
         env.rm(os.path.dirname(a.out))
     doc2, used = by_reference(doc, ir, case["bits"], case["keys"])
+    if zz is not None:
+        for item in doc2["paths"].values():
+            for h in [item] + [item[m] for m in docs.METHODS if m in item]:
+                for i, p_ in enumerate(h.get("parameters") or []):
+                    if isinstance(p_, dict) and p_.get("name") == "zzFilter":
+                        doc2.setdefault("components", {}).setdefault("parameters", {})["ZzFilterParam"] = p_
+                        h["parameters"][i] = {"$ref": "#/components/parameters/ZzFilterParam"}
+                        used += 1
     if not used:
         ctx.skip("nothing_moved")
         return
@@ -232,7 +250,7 @@ def _run_components(case, ctx):
     ctx.evals()
     moved = {sec: bool(doc2.get("components", {}).get(sec)) for sec in ("parameters", "requestBodies", "responses")}
     site = {"moved": sorted(k for k, v in moved.items() if v)[:1] if sum(moved.values()) == 1 else ["several"]}
-    site = {"moved": site["moved"][0]}
+    site = {"moved": site["moved"][0], **({"content_style_parameter": True} if zz is not None else {})}
     try:
         if b.exc is not None:
             ctx.violation("by_reference.same_outcome", {**site, "how": "crash"}, repr(b.exc)[:200])
